@@ -647,6 +647,17 @@ func genBuildCase(r *Rng) (*buildCase, []string) {
 	n := r.Pick([]int{0, 0, 1, 1, 2, 2, 3, 4})
 	for i := 0; i < n; i++ {
 		tok := genMod(r, r.Intn(nModKinds))
+		if c.in != nil && r.Chance(1, 3) {
+			// an address argument that coincides with what the packet built from already
+			// holds in that field (a relay named by the request's own giaddr, ...): a
+			// modifier that "has nothing to do" then must still do all of its work
+			// (seeded change C15-15: WithRelay returning early when giaddr already matches)
+			for pfx, ip := range map[string]net.IP{"relay/": c.in.GatewayIPAddr, "gi/": c.in.GatewayIPAddr, "ci/": c.in.ClientIPAddr, "yi/": c.in.YourIPAddr, "si/": c.in.ServerIPAddr} {
+				if strings.HasPrefix(tok, pfx) && ip.To4() != nil {
+					tok = pfx + hxOpt(ip.To4())
+				}
+			}
+		}
 		c.toks = append(c.toks, tok)
 		tags = append(tags, "mod="+modKindOf(tok))
 	}
